@@ -284,6 +284,7 @@ func createVectorImageFunctions(cdata ImageMap) { //nolint:funlen // this is a g
 		Help:       "starts a new path and moves the pen to coords",
 		ArgTypes:   []object.Type{object.STRING, object.FLOAT, object.FLOAT},
 		ClientData: cdata,
+		DontCache:  true, // like the other image functions: they change or depend on the image, not just the arguments.
 		Callback: func(cdata any, _ string, args []object.Object) object.Object {
 			images := cdata.(ImageMap)
 			img, ok := images[args[0]]
